@@ -66,7 +66,7 @@ def const_candidates(op, val):
 
 def check(chk, repo, tier):
     it = Interp(repo)
-    lp = LexProbe(repo, it)
+    lp = LexProbe(repo, it, thorough=(tier == "thorough"))
     langs = value_languages_probe(lp)
     kinds = lp.kinds
     chk.floor("token kinds", len(kinds), 9)
